@@ -284,7 +284,7 @@ func feeExpect(A *big.Int, es []feeEntry) feeSpec {
 			return feeSpec{refused: true}
 		}
 		addr, err := sdk.AccAddressFromBech32(e.recipient)
-		if err != nil {
+		if err != nil || addr.Equals(sim.OrbiterAddr()) || addr.Equals(sim.DustAddr()) {
 			return feeSpec{refused: true}
 		}
 		switch e.kind {
